@@ -295,7 +295,13 @@ func (dec *ttlvReader) Struct(tag int, f func(reader) error) error {
 	if err := dec.assertType(TypeStructure, tag); err != nil {
 		return err
 	}
-	if err := f(&ttlvReader{buf: dec.value()}); err != nil {
+	// The nested reader is validated like the top-level one, so that a child
+	// item can never reach beyond the structure's declared extent.
+	inner, err := newTTLVReader(dec.value())
+	if err != nil {
+		return err
+	}
+	if err := f(inner); err != nil {
 		return err
 	}
 	return dec.Next()
